@@ -308,8 +308,11 @@ pub fn git_applicable(_p: &Parsed) -> bool {
 // ---------------------------------------------------------------------------------------------
 // known deviations (findings.txt), each decided per query from the lines that can be involved
 // ---------------------------------------------------------------------------------------------
-fn lines_of(p: &Parsed) -> impl Iterator<Item = &[u8]> {
-    p.files.iter().flat_map(|(_, c)| c.split(|b| *b == b'\n'))
+/// the text of the line an answer points to (without LF; a BOM stays in line 1, which is harmless for the predicates)
+fn line_of<'a>(p: &'a Parsed, a: &Answer) -> Option<&'a [u8]> {
+    let (src, line, _) = a.as_ref()?;
+    let content = lookup(p, src)?;
+    content.split(|b| *b == b'\n').nth(line - 1)
 }
 
 /// dir.c match_pathname compares the literal prefix of a pattern (up to the first glob special) and calls
@@ -324,34 +327,43 @@ pub fn prefix_double_star(l: &[u8]) -> bool {
     }
 }
 
-pub fn known_class(p: &Parsed) -> Option<&'static str> {
-    let strip_cr = |l: &'_ [u8]| -> Vec<u8> { l.strip_suffix(b"\r").unwrap_or(l).to_vec() };
-    if lines_of(p).any(|l| l.starts_with(b"$") || l.starts_with(b"!$")) {
+fn line_class(icase: bool, l: &[u8]) -> Option<&'static str> {
+    if l.starts_with(b"$") || l.starts_with(b"!$") {
         return Some("precious-dollar-prefix");
     }
-    if lines_of(p).any(|l| {
-        let l = strip_cr(l);
-        let l = l.strip_prefix(b"!").unwrap_or(&l).to_vec();
-        !l.is_empty() && l.iter().all(u8::is_ascii_whitespace) && l.iter().any(|b| *b != b' ')
-    }) {
+    let t = l.strip_suffix(b"\r").unwrap_or(l);
+    let t = t.strip_prefix(b"!").unwrap_or(t);
+    if !t.is_empty() && t.iter().all(u8::is_ascii_whitespace) && t.iter().any(|b| *b != b' ') {
         return Some("whitespace-only-pattern");
     }
-    if lines_of(p).any(|l| l.contains(&0)) {
+    if l.contains(&0) {
         return Some("nul-in-pattern");
     }
-    if lines_of(p).any(prefix_double_star) {
+    if prefix_double_star(l) {
         return Some("literal-prefix-before-double-star");
     }
-    if p.icase {
-        let has_upper = |l: &[u8]| l.iter().any(u8::is_ascii_uppercase);
-        if lines_of(p).any(|l| l.contains(&b'[') && (has_upper(l) || l.contains(&b'-'))) {
+    if icase {
+        if l.contains(&b'[') && (l.iter().any(u8::is_ascii_uppercase) || l.contains(&b'-')) {
             return Some("icase-bracket-upper-or-range");
         }
-        if lines_of(p).any(|l| l.windows(2).any(|w| w[0] == b'\\' && w[1].is_ascii_uppercase())) {
+        if l.windows(2).any(|w| w[0] == b'\\' && w[1].is_ascii_uppercase()) {
             return Some("icase-escaped-upper");
         }
     }
     None
+}
+
+/// A difference between two answers is attributed to a known pattern-level class only if one of the two
+/// lines the answers point to (the line git matched and gitoxide did not, or the other way round) has the
+/// feature of that class.
+pub fn known_class(p: &Parsed, path: &[u8], got: &Answer, want: &Answer) -> Option<&'static str> {
+    let direct = [want, got].into_iter().filter_map(|a| line_of(p, a)).find_map(|l| line_class(p.icase, l));
+    if direct.is_some() || !path.contains(&b'/') {
+        return direct;
+    }
+    // below a directory a deviating line may have changed what a leading directory is matched by, which
+    // changes the answer without being one of the two lines reported: any line of the case counts then
+    p.files.iter().flat_map(|(_, c)| c.split(|b| *b == b'\n')).find_map(|l| line_class(p.icase, l))
 }
 
 pub fn prop(c: &Case) -> Verdict {
@@ -382,7 +394,7 @@ pub fn prop(c: &Case) -> Verdict {
             known.get_or_insert(("negative-parent-dir-match-reported", detail));
         } else if got[i] == stack_rule {
             known.get_or_insert(("deepest-directory-match-wins", detail));
-        } else if let Some(k) = known_class(&p) {
+        } else if let Some(k) = known_class(&p, q, &got[i], &want) {
             known.get_or_insert((k, detail));
         } else {
             unknown.get_or_insert(detail);
